@@ -110,8 +110,8 @@ func vetDSTXMD(h hash.Hash, dst []byte) []byte {
 		dst = hashAll(h, []byte(dstLongPrefix), dst)
 	}
 
-	// DST prime = length suffixed DST
-	dst = slices.Grow(dst, 1)
+	// DST prime = length suffixed DST, built in a fresh buffer so that the caller's slice is never written to.
+	dst = slices.Grow(slices.Clone(dst), 1)
 
 	return append(dst, i2osp1(uint(len(dst)))[0])
 }
